@@ -75,6 +75,14 @@ def render_doc(d, rng):
                   "itemID": "<element_source><itemID>I5</itemID></element_source>"}.get(k.get("src2"))
             parts += [x for x in (t2, s2) if x]
             return "<roElementAction%s>%s</roElementAction>" % (attr, nl.join(parts))
+        if tag.startswith("{urn:verif}"):          # the same element name in a namespace (prefixed, or as default namespace)
+            local = tag.split("}")[1]
+            attr = ' operation="MOVE"' if local == "roElementAction" else ""
+            inner = payload(local) if local != "roElementAction" else \
+                "<roID>RO1</roID><element_target><storyID>S1</storyID></element_target><element_source><storyID>S2</storyID></element_source>"
+            if rng.random() < 0.5:
+                return '<v:%s xmlns:v="urn:verif"%s>%s</v:%s>' % (local, attr, inner, local)
+            return '<%s xmlns="urn:verif"%s>%s</%s>' % (local, attr, inner, local)
         if tag in ("mosID", "ncsID", "aaa", "zzz"):
             return "<%s>some %s text</%s>" % (tag, tag, tag)
         if tag == "messageID":
@@ -106,6 +114,15 @@ def render_doc(d, rng):
         return ""
     if wf == "blank":
         return "  \n\t "
+    # characters Python calls white space but XML does not allow outside the root element
+    if wf == "trailff":
+        return body + "\x0c"
+    if wf == "trailnbsp":
+        return body + "\u00a0"
+    if wf == "traills":
+        return body + "\n\u2028\x1f"
+    if wf == "leadnbsp":
+        return "\u00a0" + body
     return "this is not XML at all & never was"
 
 
